@@ -72,15 +72,63 @@ class SecFloat(core.SymFloat):
         if isinstance(o, float) and o == o and abs(o) != float('inf') \
                 and o == int(o):
             o = int(o)
+        # the other side as W / 2**p (p = 0 for integers; a DyadicFloat is a
+        # whole number of microseconds, so the < 2**34 argument still holds)
+        if isinstance(o, DyadicFloat):
+            W, p = toint(o.n) * (1 << o.p) + o.k, o.p
+        elif isinstance(o, (int, SymInt, z3.ArithRef)):
+            W, p = toint(o), 0
+        else:
+            return NotImplemented
+        U, a, sg, big = self._parts()
+        t = op(sg * big[-1][1] * (1 << p), W * (1 << big[-1][2]))
+        for c, m, k in reversed(big[:-1]):
+            t = z3.If(c, op(sg * m * (1 << p), W * (1 << k)), t)
+        t = z3.If(a < (1 << 34) * US, op(U * (1 << p), W * US), t)
+        return wrapbool(t)
+
+    def __eq__(s, o):
+        r = s.exact_cmp(o, lambda a, b: a == b)
+        return core.SymFloat.__eq__(s, o) if r is NotImplemented else r
+
+    def __ne__(s, o):
+        r = s.exact_cmp(o, lambda a, b: a != b)
+        return core.SymFloat.__ne__(s, o) if r is NotImplemented else r
+
+    __hash__ = core.SymFloat.__hash__
+
+
+class DyadicFloat(core.SymFloat):
+    """the float n + k / 2**p for a symbolic integer n (|n| < 2**40) and
+    concrete 0 < k < 2**p, p <= 6: exactly representable, and k / 2**p is a
+    whole number of microseconds, so timedelta(seconds=<it>) is exact."""
+    __slots__ = ('n', 'k', 'p')
+
+    def __init__(self, n, k, p):
+        import z3
+        assert 0 < k < (1 << p) and p <= 6
+        t = z3.fpAdd(core.RNE, core.tofloat(n), core.fpval(k / (1 << p)))
+        core.SymFloat.__init__(self, t)
+        self.n, self.k, self.p = n, k, p
+
+    def micros(self):
+        return self.n * US + (self.k * US) // (1 << self.p)
+
+    def exact_trunc(self):
+        import z3
+        n = toint(self.n)
+        return wrapint(z3.If(n >= 0, n, n + 1))
+
+    def exact_cmp(self, o, op):
+        import z3
+        if isinstance(o, (bool, SymBool)):
+            o = toint(o)
+        if isinstance(o, SecFloat):
+            return o.exact_cmp(self, lambda a, b: op(b, a))
         if not isinstance(o, (int, SymInt, z3.ArithRef)):
             return NotImplemented
-        W = toint(o)
-        U, a, sg, big = self._parts()
-        t = op(sg * big[-1][1], W * (1 << big[-1][2]))
-        for c, m, k in reversed(big[:-1]):
-            t = z3.If(c, op(sg * m, W * (1 << k)), t)
-        t = z3.If(a < (1 << 34) * US, op(U, W * US), t)
-        return wrapbool(t)
+        return wrapbool(op(toint(self.n) * (1 << self.p) + self.k,
+                           toint(o) * (1 << self.p)))
 
     def __eq__(s, o):
         r = s.exact_cmp(o, lambda a, b: a == b)
@@ -99,12 +147,15 @@ class timedelta:
         if _us is not None:
             self.us = _us
             return
+        extra = 0
+        if isinstance(seconds, DyadicFloat):
+            extra, seconds = seconds.micros(), 0
         for v in (days, seconds, microseconds, milliseconds, minutes,
                   hours, weeks):
             if isinstance(v, (float, core.SymFloat)):
                 raise Unsupported('fractional timedelta components')
         self.us = (((weeks * 7 + days) * 24 + hours) * 60 + minutes) * 60 \
-            * US + seconds * US + milliseconds * 1000 + microseconds
+            * US + seconds * US + milliseconds * 1000 + microseconds + extra
 
     days = property(lambda s: s.us // DAY_US)
     seconds = property(lambda s: (s.us % DAY_US) // US)
